@@ -310,6 +310,19 @@ const ELEMS: &[Elem] = &[
     Elem { name: "channel-expression", text: b"(@1,2)" },
 ];
 
+/// Device of the message-path type matrix: records what the handler's typed accessor returned.
+pub struct MatDev {
+    pub optional: bool,
+    /// 0 handler not entered, 1 value, 2 reported absent, 3 error
+    pub seen: u8,
+    pub hook: u32,
+}
+impl scpi::Device for MatDev {
+    fn handle_error(&mut self, _e: scpi::error::Error) {
+        self.hook += 1;
+    }
+}
+
 fn lex_one(text: &[u8]) -> Token<'_> {
     let mut t = Tokenizer::new_params(text);
     match t.next() {
@@ -345,7 +358,63 @@ fn type_matrix(ctx: &Ctx, base: u64) -> u64 {
                                 (_, Ok(())) => "undocumented-type-accepted",
                                 _ => "wrong-error-class",
                             };
-                            ctx.violation(base + n, key, &format!("{} from {} element `{}`: {:?}, expected {:?}", $name, e.name, esc(e.text), g, exp[i]), case);
+                            ctx.violation(base + n, key, &format!("{} from {} element `{}`: {:?}, expected {:?}", $name, e.name, esc(e.text), g, exp[i]), case.clone());
+                        }
+                        // the same pair through a real message, with the required and with the optional
+                        // typed accessor: the element is present, so it must be offered to the conversion
+                        // (same verdict as the direct conversion) and never be reported absent
+                        for optional in [false, true] {
+                            n += 1;
+                            struct Hm;
+                            impl scpi::tree::prelude::Command<MatDev> for Hm {
+                                fn event(&self, dev: &mut MatDev, _c: &mut scpi::tree::prelude::Context, mut params: scpi::parser::parameters::Parameters) -> scpi::error::Result<()> {
+                                    if dev.optional {
+                                        match params.next_optional_data::<$ty>() {
+                                            Ok(Some(_)) => dev.seen = 1,
+                                            Ok(None) => dev.seen = 2,
+                                            Err(e) => {
+                                                dev.seen = 3;
+                                                return Err(e);
+                                            }
+                                        }
+                                    } else {
+                                        match params.next_data::<$ty>() {
+                                            Ok(_) => dev.seen = 1,
+                                            Err(e) => {
+                                                dev.seen = 3;
+                                                return Err(e);
+                                            }
+                                        }
+                                    }
+                                    Ok(())
+                                }
+                            }
+                            static HM: Hm = Hm;
+                            let leaves = [scpi::tree::Node::Leaf { name: b"T", default: false, handler: &HM }];
+                            let tree = scpi::tree::Node::Branch { name: b"", default: false, sub: &leaves };
+                            let mut msg = b"T ".to_vec();
+                            msg.extend_from_slice(e.text);
+                            let mut dev = MatDev { optional, seen: 0, hook: 0 };
+                            let mut out: Vec<u8> = Vec::new();
+                            let mut c = scpi::tree::prelude::Context::default();
+                            let via = guarded(|| tree.run(&msg, &mut dev, &mut c, &mut out).map_err(|e| e.get_code()));
+                            let acc = if optional { "next_optional_data" } else { "next_data" };
+                            match via {
+                                Err(p) => {
+                                    ctx.violation(base + n, "panic", &format!("`{}` with {acc}::<{}> panicked: {p}", esc(&msg), $name), case.clone());
+                                }
+                                Ok(v) => {
+                                    let agrees = match (&g, &v) {
+                                        (Ok(()), Ok(())) => dev.seen == 1,
+                                        (Err(a), Err(b)) => a / 100 == b / 100 && dev.seen == 3 && dev.hook == 1,
+                                        _ => false,
+                                    };
+                                    if !agrees {
+                                        let key = if dev.seen == 2 { "present-element-reported-absent" } else { "message-path-differs" };
+                                        ctx.violation(base + n, key, &format!("`{}` with {acc}::<{}>: message result {:?}, accessor outcome {} (1 value, 2 absent, 3 error), error hook calls {}; direct conversion gives {:?}", esc(&msg), $name, v, dev.seen, dev.hook, g), case.clone());
+                                    }
+                                }
+                            }
                         }
                     }
                 }
@@ -458,7 +527,7 @@ pub fn run(ctx: &'static Ctx) -> i32 {
     let mut c = cov();
     c.insert("evaluations".into(), json!(float_lits * 3 + h32 * 2 + h64 + kw * 2 + bl + tm));
     c.insert("distinct_nontrivial".into(), json!(h32 + h64 + kw + tm));
-    c.insert("rule".into(), json!(format!("floats: {float_lits} literals (the C07 grammar plus float-range exponents E37..E39, E-37..E-46, E307..E309, E-323..E-325 and 17..55-digit mantissas around f32/f64 MAX, MIN_POSITIVE, smallest subnormal, 2^24+1, 2^53+1) converted to f32 and f64 (directly and via the lexer) and compared bit-for-bit with core::str::parse; {h32} constructed f32 halfway cases (every {s32}-th exponent incl. subnormals x {p32} mantissa patterns x {{exact midpoint, last digit +1, last digit -1}} x both signs, up to 150 digits) and {h64} f64 halfway cases (every {s64}-th exponent x {p64} patterns, up to 1077 digits) with the expected neighbour known by construction (and cross-checked against core::str::parse); keywords: {kw} spellings (both forms of INFinity NINFinity NAN MAXimum MINimum in all case patterns, every prefix, near misses) against the reference keyword matcher; booleans: {bl} spellings of ON/OFF, near misses and numerics; type matrix: {tm} (target, element type) pairs over 27 targets x 8 element kinds with the documented accept list (accepted => value, otherwise error in -100..-199, never a value). Distinct non-trivial = halfway cases + keyword spellings + matrix pairs")));
+    c.insert("rule".into(), json!(format!("floats: {float_lits} literals (the C07 grammar plus float-range exponents E37..E39, E-37..E-46, E307..E309, E-323..E-325 and 17..55-digit mantissas around f32/f64 MAX, MIN_POSITIVE, smallest subnormal, 2^24+1, 2^53+1) converted to f32 and f64 (directly and via the lexer) and compared bit-for-bit with core::str::parse; {h32} constructed f32 halfway cases (every {s32}-th exponent incl. subnormals x {p32} mantissa patterns x {{exact midpoint, last digit +1, last digit -1}} x both signs, up to 150 digits) and {h64} f64 halfway cases (every {s64}-th exponent x {p64} patterns, up to 1077 digits) with the expected neighbour known by construction (and cross-checked against core::str::parse); keywords: {kw} spellings (both forms of INFinity NINFinity NAN MAXimum MINimum in all case patterns, every prefix, near misses) against the reference keyword matcher; booleans: {bl} spellings of ON/OFF, near misses and numerics; type matrix: {tm} evaluations over 27 targets x 8 element kinds with the documented accept list, each pair converted directly and through a real message with `next_data` and with `next_optional_data` (same verdict; a present element is never reported absent) (accepted => value, otherwise error in -100..-199, never a value). Distinct non-trivial = halfway cases + keyword spellings + matrix pairs")));
     c.insert("exhaustive".into(), json!(true));
     c.insert("samples".into(), json!(["3.4028235E38 -> f32::MAX", "3.4028236E38 -> f32 inf", "1.00000000000000011102230246251565404236316680908203125 (f64 halfway 1 | 1+2^-52) -> 1.0", "NINF -> -inf", "oFf -> false", "Expression from (1,2) -> value", "u8 from \"42\" -> -104"]));
     ctx.finish(
